@@ -18,15 +18,17 @@ NSHARDS = 4
 RULE = ("one case = one configuration: interface (extract_with_config; ParallelArchive::{extract_files_parallel, extract_files_batched, extract_matching_parallel, "
         "process_files_parallel}; parallel::{extract_from_multiple_archives, extract_multiple_from_multiple_archives, search_in_multiple_archives, process_archives_parallel}) "
         "x archive (S: ~40 files none/zlib/bzip2, multi-sector, zero-length, encrypted; M: 1300 files; L: 5200 files in thorough; P0..P5 small archives for the multi-archive helpers) "
-        "x threads {1,2,3,7,16,32,library default} x batch size {1,2,9,10,11,N-1,N,N+1} x request shape (empty, single, duplicates, all, reversed, shuffled, 39/41 around batch "
-        "multiples, case-variant spellings, 999/1000/1001/1300/5001(/5200) names, a never-added name at first/middle/last/every/every-other/three positions) x skip_errors. "
-        "quick takes the full product for the <=1000-name interfaces on S and rotates the thread axis elsewhere; thorough takes full products. Every configuration is executed r "
-        "times (quick 3; thorough 25, 8 for requests of >= 999 names): repeat 0 without injected delays, the others with a different trace_start(delay_seed) (seeded 0-200 us sleep "
-        "before each task) while 4 busy threads per worker load the cores. Oracle per call: a sequential baseline read once per archive through one plain Archive handle "
-        "(Archive::read_file; never-added names are read sequentially too and yield FileNotFound): result length == request length; slot i's name == request[i]; slot i's payload == "
-        "baseline (bytes equal, or the same error variant); with skip_errors a failing name is an Err in its own slot and all other slots are still right; without it (and for the "
-        "interfaces that have no such option) the whole call is Err iff some requested name fails; all r repeats return the identical result. distinct = distinct configuration strings "
-        "among executed cases.")
+        "x threads {1,2,3,7,16,32,library default} x batch size {1,2,9,10,11,N-1,N,N+1} x request shape (empty, single, one name 2x/17x, two names alternating, every name twice in a "
+        "row, 64 draws from three names, all, reversed, shuffled, 39/41 around batch multiples, case-variant spellings, 999/1000/1001/1300/5001(/5200) names, a never-added name at "
+        "first/middle/last/every/every-other/three positions, at each of the 12 positions of a 12-name request in turn, on either side of the first and last batch boundary of a "
+        "1001-name request) x skip_errors. quick takes the full product for the <=1000-name interfaces on S, rotates the thread axis elsewhere and "
+        "gives the 5001-name requests every other batch size; thorough takes full products except on L (three of six thread counts per batch x skip, rotating). Every configuration "
+        "is executed r times (quick 3; thorough 25, 8 for requests of 999..5000 names, 4 above 5000): repeat 0 without injected delays, the others with a different "
+        "trace_start(delay_seed) (seeded 0-200 us sleep before each task) while 4 busy threads per worker load the cores. Oracle per call: a sequential baseline read once per "
+        "archive through one plain Archive handle (Archive::read_file; never-added names are read sequentially too and yield FileNotFound): result length == request length; slot i's "
+        "name == request[i]; slot i's payload == baseline (bytes equal, or the same error variant); with skip_errors a failing name is an Err in its own slot and all other slots are "
+        "still right; without it (and for the interfaces that have no such option) the whole call is Err iff some requested name fails; all r repeats return the identical result. "
+        "distinct = distinct configuration strings among executed cases with a non-empty request.")
 
 ASSUME = [
     "the sequential baseline is Archive::read_file on the same archive file (the statement's 'what a sequential read of that name returns'); whether that equals the bytes given to "
@@ -122,7 +124,7 @@ def run(tier, seed, scratch, t0):
             tbin = None
         if tbin:
             rs = sup.Result(PROP)
-            args = ["--stride", "5", "--repeats", "3", "--repeats-light", "2", "--stress", "2"]
+            args = ["--stride", "8", "--repeats", "3", "--repeats-light", "2", "--repeats-heavy", "2", "--stress", "2"]
             env = {"TSAN_OPTIONS": "halt_on_error=1:second_deadlock_stack=1"}
             sup.run_workers(rs, tbin, args, tier, seed, scratch, nshards=NSHARDS, case_timeout=900, label="tsan", env_extra=env,
                             total_timeout=2400, confirm_hang=False)
@@ -135,7 +137,7 @@ def run(tier, seed, scratch, t0):
                         pass
             _rekey_tsan(rs, scratch)
             tsan.update({"cases": rs.cases, "calls": rs.counters.get("calls", 0), "slots_compared": rs.counters.get("slots_compared", 0),
-                         "report_blocks": reports, "verdicts": dict(rs.verdicts), "slice": "every configuration with mix(idx) % 5 == 0, 3 (2) repeats",
+                         "report_blocks": reports, "verdicts": dict(rs.verdicts), "slice": "every configuration with mix(idx) % 8 == 0; 3 repeats (2 for requests of >= 999 names)",
                          "max_concurrent_tasks": rs.extras.get("max_concurrent_tasks", 0)})
             if rs.cases == 0:
                 res.add_inconclusive("tsan-layer-ran-nothing")
